@@ -116,6 +116,28 @@ pub open spec fn bundle_proves_final(st: &SlotState, certs: Seq<Cert>) -> bool {
         && certs[0] == Cert::Final(st.certificates.finalize->0) && certs[1] == Cert::Notar(st.certificates.notar->0))
 }
 
+// the keys >= from of the slot-state map, in iteration (ascending) order: what `range(from..)` visits
+pub uninterp spec fn spec_range_keys(m: Map<Slot, SlotState>, from: int) -> Seq<Slot>;
+#[verifier::external_body]
+pub broadcast proof fn axiom_range_keys(m: Map<Slot, SlotState>, from: int)
+    ensures
+        forall|i: int| 0 <= i < (#[trigger] spec_range_keys(m, from)).len() ==> m.contains_key(spec_range_keys(m, from)[i]) && spec_range_keys(m, from)[i].0 >= from,
+        forall|s: Slot| m.contains_key(s) && s.0 >= from ==> spec_range_keys(m, from).contains(s),
+{}
+
+pub proof fn lemma_push_contains<T>(s: Seq<T>)
+    requires s.len() > 0,
+    ensures
+        s.contains(s.last()),
+        forall|y: T| s.drop_last().contains(y) ==> #[trigger] s.contains(y),
+{
+    assert(s[s.len() - 1] == s.last());
+    assert forall|y: T| s.drop_last().contains(y) implies #[trigger] s.contains(y) by {
+        let i = choose|i: int| 0 <= i < s.drop_last().len() && s.drop_last()[i] == y;
+        assert(s[i] == y);
+    }
+}
+
 // some slot >= from stores this certificate
 pub open spec fn stored_from(m: Map<Slot, SlotState>, from: int, c: Cert) -> bool {
     exists|s: Slot| s.0 >= from && m.contains_key(s) && #[trigger] m[s].stores_cert(c)
@@ -227,6 +249,13 @@ impl VerifSplitOff for BTreeMap<Slot, SlotState> {
 }
 
 
+// Rewrite R9: `.clone()` of an Option of a #[derive(Clone)] type (vstd's Option::clone spec does not say the
+// result is Some): TRUSTED to be a faithful copy.
+#[verifier::external_body]
+pub fn verif_clone_opt<T: Clone>(o: &Option<T>) -> (r: Option<T>)
+    ensures r == *o
+{ unimplemented!() }
+
 // Rewrite R8 wrappers (iterator adapters / generic extend): TRUSTED documented behaviour.
 #[verifier::external_body]
 pub fn verif_any_nf_for_block(v: &Vec<NotarFallbackCert>, h: &BlockHash) -> (r: bool)
@@ -265,12 +294,127 @@ impl Clone for SkipCert { #[verifier::external_body] fn clone(&self) -> (r: Self
 impl PoolImpl {
     // ASSUMED contracts (bodies iterate `BTreeMap::range` with a generic RangeBounds; not yet under contract):
     // every certificate / own vote stored for a slot after `from`, and only those.
+    // Rewrite R4 wrapper: the states `self.slot_states.range(from..)` visits, in order (TRUSTED).
     #[verifier::external_body]
-    pub fn verif_get_certs_from(&self, from: Slot) -> (r: Vec<Cert>)   // = self.get_certs(from..)
+    pub fn verif_range_from<'a>(m: &'a BTreeMap<Slot, SlotState>, from: &std::ops::RangeFrom<Slot>) -> (r: Vec<&'a SlotState>)
         ensures
-            forall|i: int| 0 <= i < r@.len() ==> stored_from(self.slot_states@, from.0 as int, #[trigger] r@[i]),
-            forall|c: Cert| #[trigger] stored_from(self.slot_states@, from.0 as int, c) ==> r@.contains(c),
+            r@.len() == spec_range_keys(m@, from.start.0 as int).len(),
+            forall|i: int| 0 <= i < r@.len() ==> *#[trigger] r@[i] == m@[spec_range_keys(m@, from.start.0 as int)[i]],
     { unimplemented!() }
+
+/*@ extract src/consensus/pool.rs :: impl PoolImpl/fn get_certs
+props C18
+ret r
+sig `slots: impl RangeBounds<Slot>` => `slots: std::ops::RangeFrom<Slot>`
+rewrite[R9] `slot_state.certificates.finalize.clone()` => `verif_clone_opt(&slot_state.certificates.finalize)`
+rewrite[R9] `slot_state.certificates.fast_finalize.clone()` => `verif_clone_opt(&slot_state.certificates.fast_finalize)`
+rewrite[R9] `slot_state.certificates.notar.clone()` => `verif_clone_opt(&slot_state.certificates.notar)`
+rewrite[R9] `slot_state.certificates.skip.clone()` => `verif_clone_opt(&slot_state.certificates.skip)`
+rewrite[R4] `for (_, slot_state) in self.slot_states.range(slots) {` => `let verif_states = Self::verif_range_from(&self.slot_states, &slots); let mut verif_i: usize = 0; while verif_i < verif_states.len() { let slot_state = verif_states[verif_i]; verif_i += 1;`
+rewrite[R4] `for cert in slot_state.certificates.notar_fallback.iter().cloned() {` => `let verif_nf = &slot_state.certificates.notar_fallback; let mut verif_j: usize = 0; while verif_j < verif_nf.len() { let cert = verif_nf[verif_j].clone(); verif_j += 1;`
+ensures
+        // [C18.every_later_certificate_and_only_those]
+        forall|i: int| 0 <= i < r@.len() ==> stored_from(self.slot_states@, slots.start.0 as int, #[trigger] r@[i]),
+        forall|c: Cert| #[trigger] stored_from(self.slot_states@, slots.start.0 as int, c) ==> r@.contains(c),
+before `let verif_states = Self::verif_range_from(&self.slot_states, &slots);`
+        proof { broadcast use axiom_range_keys; }
+        let ghost from = slots.start.0 as int;
+        let ghost keys = spec_range_keys(self.slot_states@, from);
+loop 0
+        invariant
+            verif_i <= verif_states@.len(),
+            verif_states@.len() == keys.len(),
+            keys == spec_range_keys(self.slot_states@, from),
+            forall|i: int| 0 <= i < verif_states@.len() ==> *#[trigger] verif_states@[i] == self.slot_states@[keys[i]],
+            forall|i: int| 0 <= i < keys.len() ==> self.slot_states@.contains_key(#[trigger] keys[i]) && keys[i].0 >= from,
+            forall|i: int| 0 <= i < certs@.len() ==> stored_from(self.slot_states@, from, #[trigger] certs@[i]),
+            forall|j: int, c: Cert| 0 <= j < verif_i && #[trigger] self.slot_states@[keys[j]].stores_cert(c) ==> certs@.contains(c),
+        decreases verif_states@.len() - verif_i,
+loop 1
+        invariant
+            0 < verif_i <= verif_states@.len(),
+            verif_states@.len() == keys.len(),
+            *slot_state == self.slot_states@[keys[verif_i - 1]],
+            self.slot_states@.contains_key(keys[verif_i - 1]) && keys[verif_i - 1].0 >= from,
+            verif_nf@ == slot_state.certificates.notar_fallback@,
+            verif_j <= verif_nf@.len(),
+            forall|i: int| 0 <= i < certs@.len() ==> stored_from(self.slot_states@, from, #[trigger] certs@[i]),
+            forall|j: int, c: Cert| 0 <= j < verif_i - 1 && #[trigger] self.slot_states@[keys[j]].stores_cert(c) ==> certs@.contains(c),
+            slot_state.certificates.finalize is Some ==> certs@.contains(Cert::Final(slot_state.certificates.finalize->0)),
+            slot_state.certificates.fast_finalize is Some ==> certs@.contains(Cert::FastFinal(slot_state.certificates.fast_finalize->0)),
+            slot_state.certificates.notar is Some ==> certs@.contains(Cert::Notar(slot_state.certificates.notar->0)),
+            forall|k: int| 0 <= k < verif_j ==> certs@.contains(Cert::NotarFallback(#[trigger] verif_nf@[k])),
+        decreases verif_nf@.len() - verif_j,
+before `if let Some(cert) = verif_clone_opt(&slot_state.certificates.fast_finalize)`
+        proof { assert(slot_state.certificates.finalize is Some ==> certs@.contains(Cert::Final(slot_state.certificates.finalize->0))); }
+before `if let Some(cert) = verif_clone_opt(&slot_state.certificates.notar)`
+        proof {
+            assert(slot_state.certificates.finalize is Some ==> certs@.contains(Cert::Final(slot_state.certificates.finalize->0)));
+            assert(slot_state.certificates.fast_finalize is Some ==> certs@.contains(Cert::FastFinal(slot_state.certificates.fast_finalize->0)));
+        }
+before `let verif_nf = &slot_state.certificates.notar_fallback;`
+        proof {
+            assert(slot_state.certificates.finalize is Some ==> certs@.contains(Cert::Final(slot_state.certificates.finalize->0)));
+            assert(slot_state.certificates.fast_finalize is Some ==> certs@.contains(Cert::FastFinal(slot_state.certificates.fast_finalize->0)));
+            assert(slot_state.certificates.notar is Some ==> certs@.contains(Cert::Notar(slot_state.certificates.notar->0)));
+        }
+before `certs.push(Cert::Final(cert));`
+        let ghost prev = certs@;
+after `certs.push(Cert::Final(cert));`
+        proof {
+            assert(certs@.drop_last() =~= prev);
+            lemma_push_contains(certs@);
+            assert forall|y: Cert| prev.contains(y) implies #[trigger] certs@.contains(y) by {}
+            assert(stored_from(self.slot_states@, from, certs@.last())) by {
+                assert(self.slot_states@[keys[verif_i - 1]].stores_cert(certs@.last()));
+            }
+        }
+before `certs.push(Cert::FastFinal(cert));`
+        let ghost prev = certs@;
+after `certs.push(Cert::FastFinal(cert));`
+        proof {
+            assert(certs@.drop_last() =~= prev);
+            lemma_push_contains(certs@);
+            assert forall|y: Cert| prev.contains(y) implies #[trigger] certs@.contains(y) by {}
+            assert(stored_from(self.slot_states@, from, certs@.last())) by {
+                assert(self.slot_states@[keys[verif_i - 1]].stores_cert(certs@.last()));
+            }
+        }
+before `certs.push(Cert::Notar(cert));`
+        let ghost prev = certs@;
+after `certs.push(Cert::Notar(cert));`
+        proof {
+            assert(certs@.drop_last() =~= prev);
+            lemma_push_contains(certs@);
+            assert forall|y: Cert| prev.contains(y) implies #[trigger] certs@.contains(y) by {}
+            assert(stored_from(self.slot_states@, from, certs@.last())) by {
+                assert(self.slot_states@[keys[verif_i - 1]].stores_cert(certs@.last()));
+            }
+        }
+before `certs.push(Cert::NotarFallback(cert));`
+        let ghost prev = certs@;
+after `certs.push(Cert::NotarFallback(cert));`
+        proof {
+            assert(certs@.drop_last() =~= prev);
+            lemma_push_contains(certs@);
+            assert forall|y: Cert| prev.contains(y) implies #[trigger] certs@.contains(y) by {}
+            assert(stored_from(self.slot_states@, from, certs@.last())) by {
+                assert(self.slot_states@[keys[verif_i - 1]].stores_cert(certs@.last()));
+            }
+        }
+before `certs.push(Cert::Skip(cert));`
+        let ghost prev = certs@;
+after `certs.push(Cert::Skip(cert));`
+        proof {
+            assert(certs@.drop_last() =~= prev);
+            lemma_push_contains(certs@);
+            assert forall|y: Cert| prev.contains(y) implies #[trigger] certs@.contains(y) by {}
+            assert(stored_from(self.slot_states@, from, certs@.last())) by {
+                assert(self.slot_states@[keys[verif_i - 1]].stores_cert(certs@.last()));
+            }
+        }
+@*/
+
     #[verifier::external_body]
     pub fn get_own_votes(&self, slots: std::ops::RangeFrom<Slot>) -> (r: Vec<Vote>)
     { unimplemented!() }
@@ -414,7 +558,7 @@ ensures
 /*@ extract src/consensus/pool.rs :: impl Pool for PoolImpl/fn recover_from_standstill
 props C18 C10
 elide-async
-rewrite[R8] `certs.extend(self.get_certs(slot.next()..));` => `let verif_from = slot.next(); let verif_more = self.verif_get_certs_from(verif_from); let ghost more_view = verif_more@; verif_extend_certs(&mut certs, verif_more);`
+rewrite[R8] `certs.extend(self.get_certs(slot.next()..));` => `let verif_from = slot.next(); let verif_more = self.get_certs(verif_from..); let ghost more_view = verif_more@; verif_extend_certs(&mut certs, verif_more);`
 requires
         self.wf(),
         // pool invariant (maintained by add_valid_cert, ASSUMED here): the highest finalized slot is
@@ -431,7 +575,7 @@ before `let event = PoolEvent::Standstill(slot.next(), certs, votes);`
         proof {
             assert(certs@ =~= fc + more_view);
             assert(head_ok(self, fc));
-            let st = verif_from.0 as int;
+            let st = (verif_from..).start.0 as int;
             assert(st == self.hi() + 1);
             assert forall|i: int| 0 <= i < more_view.len() implies stored_from(self.slot_states@, self.hi() + 1, #[trigger] more_view[i]) by {
                 assert(stored_from(self.slot_states@, st, more_view[i]));
